@@ -114,11 +114,17 @@ def register(PROPS, h):
               "boundary varint lengths up to 2^62-1, fed in random chunks of 1-64 bytes to Deserializer<_, Frame>; every decoded gossip "
               "message is handed to a live Service. Runs in child processes of 2000 cases; a child that dies is bisected to the case. "
               "(iii) git request lines with length fields 0000..0004, 0400, 0401, ffff, non-hex, random and correct, over valid, mutated, "
-              "over-long and random bodies, into the real pkt-line parser. Oracle: no panic, no process death. Non-trivial/distinct = "
+              "over-long and random bodies, into the real pkt-line parser. (iv) the wire's per-connection stream table (hook StreamsProbe): "
+              "20-79 step interleavings of remote `open`s with identifiers of the remote's choosing (the next / upcoming identifiers of our "
+              "own space, identifiers of its own space, control/gossip ids, random 62-bit values, already open ids), local stream opens "
+              "and closes; a local open must not panic and must return a fresh git identifier of our own space. "
+              "Oracle: no panic, no process death. Non-trivial/distinct = "
               "service schedule seed, header bytes."),
-        assumptions=SVC_TB + ["hooks: wire::verif (Frame) and worker::verif::git_request (feature `verif`)"],
+        assumptions=SVC_TB + ["hooks: wire::verif (Frame, StreamsProbe) and worker::verif::git_request (feature `verif`)",
+                              "(iv) drives the stream table, not the reactor-driven `Wire` around it: the `open` handler's call into the table (`Streams::accept`) is what is exercised"],
         gates=dict(quick={"bytes.cases": 150000, "bytes.cases-decoding-at-least-one-frame": 60000, "header.cases": 150000, "header.accepted": 4000, "header.rejected": 40000,
-                          "service.message:subscribe@connected-inbound": 1500, "service.message:announcement@connected-inbound": 5000, "service.message:announcement@unknown": 1500, "service.message:announcement@attempted": 150, "service.message:ping@connected-outbound": 200},
+                          "service.message:subscribe@connected-inbound": 1500, "service.message:announcement@connected-inbound": 5000, "service.message:announcement@unknown": 1500, "service.message:announcement@attempted": 150, "service.message:ping@connected-outbound": 200,
+                          "streams.cases": 30000, "streams.local-opens": 200000, "streams.remote-open:next-id-of-our-own-space": 100000},
                    thorough={"bytes.cases": 1200000, "header.cases": 1200000}),
         runs=dict(quick=[native("h-node", "C13")],
                   thorough=[native("h-node", "C13"), native("h-node", "C13", profile="release"), dict(crate="h-node", prop="C13", wrapper="asan", cases=40000, shards=16, label="h-node:C13:asan", timeout=3600)]),
